@@ -39,7 +39,7 @@ def confirm(prop, res, fail, caps):
     vec = runner.get_trace(res, fail['prop'], caps)
     if vec is None:
         return 'no-trace', None, None
-    native = runner.replay_native(res['harness'], res['group'], vec)
+    native = runner.replay_native(res['harness'], res['group'], vec, feats=res.get('feats', ()))
     cls, cid = fail['cls'], fail['id']
     ok = False
     for prof, got in native.items():
@@ -49,7 +49,9 @@ def confirm(prop, res, fail, caps):
             ok = True
         elif cls == 'ESCAPE' and -2 in got:
             ok = True
-        elif cls in ('MEM', 'UB', 'ABORT', 'ALLOC') and got:
+        elif cls == 'ALLOC' and -3 in got:
+            ok = True   # the native run made heap requests
+        elif cls in ('MEM', 'UB', 'ABORT') and (got - {-3}):
             ok = True   # UB manifests natively as some failing check / crash
     nat = {k: (sorted(v) if isinstance(v, set) else v) for k, v in native.items()}
     return ('reproduced' if ok else 'not-reproduced'), vec, nat
@@ -60,7 +62,7 @@ def write_replay(prop, res, fail, vec, native, status):
     h = hashlib.sha1(json.dumps([res['harness'], res['profile'], fail['cls'], fail['id'], vec]).encode()).hexdigest()[:10]
     path = os.path.join(VERIF, 'replays', '%s-%s-%s.json' % (prop, res['harness'], h))
     meaning = checks.IDS.get(fail['id'], (None, ''))[1] if fail['cls'] == 'VF' else fail['desc']
-    json.dump({'property': prop, 'harness': res['harness'], 'group': res['group'], 'profile': res['profile'],
+    json.dump({'property': prop, 'harness': res['harness'], 'group': res['group'], 'feats': res.get('feats', []), 'profile': res['profile'],
                'failing': {'class': fail['cls'], 'id': fail['id'], 'meaning': meaning, 'cbmc_property': fail['prop'], 'desc': fail['desc']},
                'vector': vec, 'native': native, 'status': status, 'cbmc_cmd': res.get('cmd'),
                'how_to_replay': './check --replay %s' % os.path.relpath(path, VERIF)}, open(path, 'w'), indent=1)
@@ -69,7 +71,7 @@ def write_replay(prop, res, fail, vec, native, status):
 
 def do_replay(path):
     d = json.load(open(path))
-    native = runner.replay_native(d['harness'], d['group'], d['vector'])
+    native = runner.replay_native(d['harness'], d['group'], d['vector'], feats=d.get('feats', ()))
     for prof, got in native.items():
         log('replay %s [%s]: %s' % (d['harness'], prof, sorted(got) if isinstance(got, set) else got))
     want = d['failing']['id']
@@ -211,7 +213,7 @@ def write_evidence(prop, tier, seed, results, builds, violations, known_hits, in
             'functions_encoded': {'micromap': micromap_fns, 'total_distinct': len(funcs),
                                   'note': 'non-inlined functions in the translated modules; inlined callees are part of their callers'},
             'stubs': sorted(stubs),
-            'builds': [{'profile': k[0], 'features': list(k[1]), 'lto': k[2], **{a: b for a, b in v.items() if a != 'll'}} for k, v in builds.items()],
+            'builds': [{'profile': k[0], 'features': list(k[1]), 'lto': k[2], 'opt_level_override': k[3], **{a: b for a, b in v.items() if a != 'll'}} for k, v in builds.items()],
             'queries': len(results) + sum(len(r.get('tries', [])) - 1 for r in results if r.get('tries')),
             'solver_seconds': round(sum(r.get('solver_secs', 0) for r in results), 1),
             'sat_variables_max': max([r.get('stats', {}).get('variables', 0) for r in results] or [0]),
@@ -240,6 +242,9 @@ def main(argv):
         return 2
     if argv[0] == '--replay':
         return do_replay(argv[1] if os.path.isabs(argv[1]) else os.path.join(VERIF, argv[1]))
+    if argv[0] == 'selftest':
+        import selftest
+        return selftest.run(argv[1:])
     prop = argv[0]
     tier = os.environ.get('VERIF_TIER', 'quick')
     if '--tier' in argv:
